@@ -33,8 +33,15 @@ const DERIVES: [&str; 4] = ["IsVariant", "Unwrap", "TryUnwrap", "TryInto"];
 const ATTRS: [&str; 4] = ["is_variant", "unwrap", "try_unwrap", "try_into"];
 const KINDS: [&str; 3] = ["owned", "ref", "ref_mut"];
 
-/// (declared type, type in the instantiation `EC`, generic parameters used: 1 = T, 2 = 'a, 4 = N)
-const TYS: [(&str, &str, u8); 8] = [
+/// Recorded genuine defect (reported, not repaired yet): unwrap.md / try_unwrap.md promise "you can put the
+/// `#[unwrap(ref)]` attribute on the enum declaration **or that variant**, then `unwrap_foo_ref(..)` will be
+/// generated", but a variant-level `ref`/`ref_mut` generates no reference accessor (impl/src/unwrap.rs,
+/// `info.ref_ && state.default_info.ref_`) and switches the accessors of all un-annotated variants off
+/// (impl/src/utils.rs `default_enabled`). While `true`, Unwrap/TryUnwrap get no variant-level owned/ref/ref_mut.
+const AVOID_VARIANT_LEVEL_REF_UNWRAP: bool = true;
+
+/// (declared type, type in the instantiation `EC`, generic parameters used: 1 = T, 2 = 'a, 4 = N, 8 = 'b)
+const TYS: [(&str, &str, u8); 9] = [
     ("A", "A", 0),
     ("B", "B", 0),
     ("C", "C", 0),
@@ -43,6 +50,7 @@ const TYS: [(&str, &str, u8); 8] = [
     ("T", "C", 1),
     ("&'a A", "&'static A", 2),
     ("[A; N]", "[A; 2]", 4),
+    ("&'b A", "&'static A", 8),
 ];
 
 fn value_of(ty: usize, n: usize) -> String {
@@ -53,7 +61,7 @@ fn value_of(ty: usize, n: usize) -> String {
         3 => format!("D({n})"),
         4 => format!("W(C({n}), 7)"),
         5 => format!("C({n})"),
-        6 => format!("lk({n})"),
+        6 | 8 => format!("lk({n})"),
         _ => format!("[A({n}), A({})]", n + 100),
     }
 }
@@ -134,6 +142,9 @@ fn tpl(t: &str, subs: &[(&str, &str)]) -> String {
 const WORDS: [&str; 10] = ["Foo", "Bar", "Http", "Request", "Id", "Version", "Two", "Ab", "Left", "Nothing"];
 const EXTRA: [&str; 5] = ["Alpha", "Beta", "Gamma", "Delta", "Omega"];
 const KEYWORDS: [&str; 4] = ["type", "match", "fn", "loop"];
+/// names outside the `[A-Z][a-z]+` word scheme on whose snake_case every common convention agrees:
+/// one-letter words, acronyms followed by a word, all-caps with underscores
+const SPECIAL: [(&str, &str); 8] = [("A", "a"), ("Z", "z"), ("XRay", "x_ray"), ("IOError", "io_error"), ("HTTPRequest", "http_request"), ("FOO_BAR", "foo_bar"), ("ID", "id"), ("PlanB", "plan_b")];
 const FIELD_NAMES: [&str; 4] = ["x", "r#type", "y", "value"];
 
 /// What the expansion of the same tree (in-process) declares: method names and `TryFrom` impl headers.
@@ -211,9 +222,13 @@ struct Model {
     vars: Vec<Var>,
     derives: Vec<usize>,
     enum_level: [Option<String>; 4],
-    /// generic parameters declared: 1 = T, 2 = 'a, 4 = N
+    /// generic parameters declared: 1 = T, 2 = 'a, 4 = N, 8 = 'b
     params: u8,
     bound_style: usize,
+    /// defaults on the trailing parameters (`T = C`, `const N: usize = 2`)
+    defaults: bool,
+    /// a variant name outside the `[A-Z][a-z]+` word scheme
+    special_name: bool,
 }
 
 impl Model {
@@ -221,30 +236,55 @@ impl Model {
         self.derives.contains(&k)
     }
     fn generics(&self) -> (String, String, String, String) {
-        // (declaration on the enum, impl generics, type arguments, where clause)
+        let (decl, _, args, inst, wh) = self.generics5();
+        (decl, args, inst, wh)
+    }
+    /// generic parameters as an impl header declares them (bounds, no defaults)
+    fn impl_decl(&self) -> String {
+        self.generics5().1
+    }
+    fn generics5(&self) -> (String, String, String, String, String) {
+        // (declaration on the enum, declaration on an impl, type arguments, instantiation, where clause)
         let mut decl = vec![];
+        let mut idecl = vec![];
         let mut args = vec![];
         let mut inst = vec![];
         if self.params & 2 != 0 {
             decl.push("'a".to_string());
+            idecl.push("'a".to_string());
             args.push("'a".to_string());
             inst.push("'static".to_string());
         }
+        if self.params & 8 != 0 {
+            // a second lifetime, bounded by the first one when there is one
+            let b = if self.params & 2 != 0 { "'b: 'a" } else { "'b" };
+            decl.push(b.to_string());
+            idecl.push(b.to_string());
+            args.push("'b".to_string());
+            inst.push("'static".to_string());
+        }
+        // defaults must be trailing: `T = C` only when `N` (declared after it) has one as well or is absent
+        let n_default = self.defaults && self.params & 4 != 0;
+        let t_default = self.defaults && self.params & 1 != 0;
         if self.params & 1 != 0 {
-            decl.push(if self.bound_style == 1 { "T: Clone".to_string() } else { "T".to_string() });
+            let lt = if self.params & 2 != 0 { " + 'a" } else { "" };
+            let t = if self.bound_style == 1 { format!("T: Clone{lt}") } else { "T".to_string() };
+            idecl.push(t.clone());
+            decl.push(if t_default { format!("{t} = C") } else { t });
             args.push("T".into());
             inst.push("C".into());
         }
         if self.params & 4 != 0 {
-            decl.push("const N: usize".into());
+            idecl.push("const N: usize".into());
+            decl.push(if n_default { "const N: usize = 2".to_string() } else { "const N: usize".to_string() });
             args.push("N".into());
             inst.push("2".into());
         }
         let wh = if self.params & 1 != 0 && self.bound_style == 2 { "where T: Clone".to_string() } else { String::new() };
         if decl.is_empty() {
-            (String::new(), String::new(), String::new(), wh)
+            (String::new(), String::new(), String::new(), String::new(), wh)
         } else {
-            (format!("<{}>", decl.join(", ")), format!("<{}>", args.join(", ")), format!("<{}>", inst.join(", ")), wh)
+            (format!("<{}>", decl.join(", ")), format!("<{}>", idecl.join(", ")), format!("<{}>", args.join(", ")), format!("<{}>", inst.join(", ")), wh)
         }
     }
     fn item(&self, with_derives: bool) -> String {
@@ -310,23 +350,35 @@ impl Model {
             s.push_str(&format!("        {vi} => {ctor},\n"));
         }
         s.push_str("        _ => unreachable!(),\n    }\n}\n");
+        s.push_str(&format!(
+            "pub fn vname(i: usize) -> &'static str {{ [{}][i] }}\n",
+            self.vars.iter().map(|v| format!("{:?}", v.plain)).collect::<Vec<_>>().join(", ")
+        ));
         s
     }
 }
 
 fn gen_model(d: &mut Dice) -> Model {
-    let gen_mode = d.weighted(&[50, 22, 8, 6, 7, 7]);
-    let allowed: u8 = [0, 1, 2, 3, 4, 7][gen_mode];
+    let gen_mode = d.weighted(&[46, 18, 7, 6, 6, 6, 7, 4]);
+    let mut allowed: u8 = [0, 1, 2, 3, 4, 7, 10, 15][gen_mode];
     let allow_named = d.chance(30);
+    // named variants next to Unwrap/TryUnwrap: legal as long as each of them carries `#[unwrap(ignore)]` /
+    // `#[try_unwrap(ignore)]` ("If you don't want the `unwrap_foo` method generated for a variant ...")
+    let named_ignored = !allow_named && d.chance(18);
     let cands: Vec<usize> = if allow_named { vec![0, 3] } else { vec![0, 1, 2, 3] };
     let mut derives: Vec<usize> = cands.iter().copied().filter(|_| d.chance(65)).collect();
     if derives.is_empty() {
         derives.push(cands[d.pick(cands.len())]);
     }
     let has_ti = derives.contains(&3);
+    if has_ti {
+        // `&'a A` and `&'b A` as TryInto targets would be overlapping impls (lifetimes unify): one lifetime only
+        allowed &= !8;
+    }
     let nv = 1 + d.weighted(&[2, 4, 5, 4, 2]);
     let raw_at = if d.chance(8) { Some(d.pick(nv)) } else { None };
     let mut vars: Vec<Var> = vec![];
+    let mut special_name = false;
     let pick_ty = |d: &mut Dice, ignored: bool| -> usize {
         let w: Vec<u32> = TYS
             .iter()
@@ -339,7 +391,7 @@ fn gen_model(d: &mut Dice) -> Model {
                 if i == 5 && has_ti && !ignored {
                     return 0;
                 }
-                [5, 4, 2, 1, 4, 4, 4, 4][i]
+                [5, 4, 2, 1, 4, 4, 4, 4, 4][i]
             })
             .collect();
         d.weighted(&w)
@@ -348,7 +400,7 @@ fn gen_model(d: &mut Dice) -> Model {
         // name
         let nw = 1 + d.weighted(&[4, 5, 2]);
         let mut words: Vec<String> = (0..nw).map(|_| WORDS[d.pick(WORDS.len())].to_string()).collect();
-        let style = d.weighted(&[75, 25]);
+        let style = d.weighted(&[68, 22, 10]);
         let mut raw = false;
         if raw_at == Some(vi) {
             raw = true;
@@ -360,12 +412,20 @@ fn gen_model(d: &mut Dice) -> Model {
         if vars.iter().any(|v: &Var| v.snake == snake_of(&words)) {
             words.push(EXTRA[vi].to_string());
         }
-        let snake = snake_of(&words);
+        let mut snake = snake_of(&words);
         let keyword = raw && words.len() == 1 && KEYWORDS.contains(&words[0].as_str());
-        let plain = if keyword || style == 1 { snake.clone() } else { words.concat() };
+        let mut plain = if keyword || style == 1 { snake.clone() } else { words.concat() };
+        if style == 2 && !raw {
+            let (n, sn) = SPECIAL[d.pick(SPECIAL.len())];
+            if !vars.iter().any(|v: &Var| v.snake == sn) {
+                plain = n.to_string();
+                snake = sn.to_string();
+                special_name = true;
+            }
+        }
         let ident = if raw { format!("r#{plain}") } else { plain.clone() };
         // shape
-        let kind = [VK::Unit, VK::Tuple, VK::Named][d.weighted(&[2, 6, if allow_named { 4 } else { 0 }])];
+        let kind = [VK::Unit, VK::Tuple, VK::Named][d.weighted(&[2, 6, if allow_named { 4 } else if named_ignored { 3 } else { 0 }])];
         let mut fields: Vec<Fld> = vec![];
         if kind != VK::Unit {
             let with_fields: Vec<usize> = (0..vars.len()).filter(|i| !vars[*i].fields.is_empty()).collect();
@@ -396,7 +456,7 @@ fn gen_model(d: &mut Dice) -> Model {
     }
     // make sure every allowed generic parameter is used somewhere if there is a field at all
     let mut params: u8 = vars.iter().flat_map(|v| v.fields.iter()).fold(0, |a, f| a | TYS[f.ty].2);
-    for (bit, ty) in [(1u8, 4usize), (2, 6), (4, 7)] {
+    for (bit, ty) in [(1u8, 4usize), (2, 6), (4, 7), (8, 8)] {
         if allowed & bit != 0 && params & bit == 0 {
             if let Some(f) = vars.iter_mut().flat_map(|v| v.fields.iter_mut()).find(|f| TYS[f.ty].2 == 0) {
                 f.ty = ty;
@@ -418,7 +478,10 @@ fn gen_model(d: &mut Dice) -> Model {
         if d.chance(50) {
             enum_level[k] = Some(refs_tbl[d.weighted(&[4, 3, 4, 4, 1, 1, 1])].to_string());
         }
-        let mode = if k == 3 { d.weighted(&[55, 22, 13, 10]) } else { d.weighted(&[55, 32, 0, 13]) };
+        let mut mode = if k == 3 { d.weighted(&[55, 22, 11, 12]) } else { d.weighted(&[55, 32, 0, 13]) };
+        if k != 3 && mode == 3 && AVOID_VARIANT_LEVEL_REF_UNWRAP {
+            mode = 1;
+        }
         match mode {
             0 => {}
             1 => {
@@ -455,8 +518,18 @@ fn gen_model(d: &mut Dice) -> Model {
             }
         }
     }
+    // a named variant must not reach Unwrap/TryUnwrap un-ignored
+    for v in vars.iter_mut().filter(|v| v.kind == VK::Named) {
+        for k in [1usize, 2] {
+            if derives.contains(&k) {
+                v.ignore[k] = true;
+                v.level[k] = None;
+            }
+        }
+    }
     let bound_style = if params & 1 != 0 { d.weighted(&[5, 3, 2]) } else { 0 };
-    Model { vars, derives, enum_level, params, bound_style }
+    let defaults = params & 5 != 0 && d.chance(20);
+    Model { vars, derives, enum_level, params, bound_style, defaults, special_name }
 }
 
 fn kinds_listed(a: &Option<String>) -> Vec<usize> {
@@ -478,7 +551,7 @@ fn render(m: &Model) -> GenCase {
     let item = m.item(true);
     let found = discover(&item, &m.derives);
     let (_, impl_args, _, wh) = m.generics();
-    let (decl_gen, _, _, _) = m.generics();
+    let decl_gen = m.impl_decl();
     let mut body = String::new();
     body.push_str(&item);
     body.push_str(&m.mk());
@@ -512,10 +585,14 @@ fn render(m: &Model) -> GenCase {
                 let expected = if k == 0 {
                     true
                 } else if murky {
-                    false
+                    // (only reachable once AVOID_VARIANT_LEVEL_REF_UNWRAP is switched off) unwrap.md: the attribute "on the
+                    // enum declaration or that variant": the owned form of every variant, the reference forms listed on
+                    // the enum or on this variant; whatever else the expansion declares is checked as well
+                    form == 0 || listed.contains(&form) || kinds_listed(&v.level[k]).contains(&form)
                 } else if form == 0 {
-                    // no attribute: owned; `#[unwrap(ref)]` alone: the documentation's example lists the owned form too
-                    m.enum_level[k].is_none() || listed.contains(&0) || m.enum_level[k].as_deref() == Some("ref")
+                    // unwrap.md / try_unwrap.md: `unwrap_foo` "is generated" for each variant; `ref` / `ref_mut` on the
+                    // enum *add* the reference forms (the documentation's example lists the owned form next to `_ref`)
+                    true
                 } else {
                     listed.contains(&form)
                 };
@@ -590,6 +667,18 @@ fn render(m: &Model) -> GenCase {
 "#,
                 };
                 run.push_str(&tpl(t, &subs));
+                if k == 2 {
+                    // try_unwrap.md (example) and tests/try_unwrap.rs: "Attempt to call `Maybe::try_unwrap_just()` on a
+                    // `Maybe::Nothing` value": the error names the function and the value's *actual* variant
+                    let call = match form {
+                        0 => "mk(i).$FN$()",
+                        _ => "v.$FN$()",
+                    };
+                    let t2 = format!(
+                        "    for i in 0..NV {{\n        #[allow(unused_variables, unused_mut)] let mut v = mk(i);\n        if let Err(e) = {call} {{\n            ck(o, \"the error of $FN$() names the function and the actual variant of the value\", i, format!(\"Attempt to call `E::$FN$()` on a `E::{{}}` value\", vname(i)), e.to_string().replace(\"r#\", \"\"));\n        }}\n    }}\n"
+                    );
+                    run.push_str(&tpl(&t2, &subs));
+                }
             }
         }
     }
@@ -753,6 +842,21 @@ fn render(m: &Model) -> GenCase {
     if raw {
         labels.push("raw_ident_variant".into());
     }
+    if m.special_name {
+        labels.push("variant_name_outside_word_scheme".into());
+    }
+    if m.vars.iter().any(|v| v.kind == VK::Named) && (m.has(1) || m.has(2)) {
+        labels.push("ignored_named_variant_under_unwrap".into());
+    }
+    if m.defaults {
+        labels.push("generic_param_defaults".into());
+    }
+    if m.params & 8 != 0 {
+        labels.push("second_lifetime_param".into());
+    }
+    if m.has(2) {
+        labels.push("try_unwrap_error_message_checked".into());
+    }
     if m.vars.iter().any(|v| v.kind == VK::Tuple && v.fields.is_empty()) {
         labels.push("empty_tuple_variant".into());
     }
@@ -795,9 +899,10 @@ pub fn prop() -> DiceProp {
         build,
         fixed: no_fixed,
         classify,
-        rule: "enum with 1..5 unit / tuple (0..3 fields) / named variants (named only with IsVariant+TryInto), field types distinct non-ZST newtypes incl. generic (`T`, `W<T>`), borrowed (`&'a A`) and const-generic (`[A; N]`) ones, variants sharing a field-type tuple, `ignore` on variants and (TryInto) fields, enum-level and variant-level owned/ref/ref_mut, TryInto opt-in, multi-word / lower-case / raw-identifier variant names; oracle: full table (one value per variant) x (every accessor that the docs promise or the expansion declares) against hand-written matches (values for owned forms, addresses for ref/mut forms, caught panics, error.input), accessors called by snake_case name, colliding user items for accessors that must be absent; non-trivial = two variants share a field-type tuple, or an ignore, or a variant with >= 2 fields; distinct by program text".into(),
+        rule: "enum with 1..5 unit / tuple (0..3 fields) / named variants (named only with IsVariant+TryInto), field types distinct non-ZST newtypes incl. generic (`T`, `W<T>`), borrowed (`&'a A`) and const-generic (`[A; N]`) ones, variants sharing a field-type tuple, `ignore` on variants and (TryInto) fields, enum-level and variant-level owned/ref/ref_mut, TryInto opt-in, multi-word / lower-case / raw-identifier / one-letter / acronym / ALL_CAPS variant names, named variants next to Unwrap/TryUnwrap when ignored there, parameter defaults and a second bounded lifetime; oracle: full table (one value per variant) x (every accessor that the docs promise or the expansion declares) against hand-written matches (values for owned forms, addresses for ref/mut forms, caught panics, error.input, the TryUnwrapError text naming the function and the actual variant), accessors called by snake_case name, colliding user items for accessors that must be absent; non-trivial = two variants share a field-type tuple, or an ignore, or a variant with >= 2 fields; distinct by program text".into(),
         assumptions: vec![
-            "snake_case of a variant name is taken as the lower-cased `[A-Z][a-z]+` words joined by `_` (names with digits or acronyms are not generated)".into(),
+            "snake_case of a variant name is taken as the lower-cased `[A-Z][a-z]+` words joined by `_`; outside that scheme only names on which the usual conventions agree are generated (one-letter words, acronym + word, ALL_CAPS); names with digits are not".into(),
+            "AVOID_VARIANT_LEVEL_REF_UNWRAP: variant-level owned/ref/ref_mut of Unwrap/TryUnwrap is a reported deviation from unwrap.md and kept out of the generated domain until repaired".into(),
             "variant-level owned/ref/ref_mut and mixed opt-in/ignore: the set of accessors is read from the expansion (docs are not crisp), every accessor found is checked".into(),
         ],
         floors: vec![
@@ -812,6 +917,10 @@ pub fn prop() -> DiceProp {
             ("named_variant".into(), 0.1),
             ("multi_word_variant_name".into(), 0.5),
             ("raw_ident_variant".into(), 0.01),
+            ("variant_name_outside_word_scheme".into(), 0.08),
+            ("ignored_named_variant_under_unwrap".into(), 0.03),
+            ("generic_param_defaults".into(), 0.03),
+            ("second_lifetime_param".into(), 0.01),
             ("derive=IsVariant".into(), 0.4),
             ("derive=Unwrap".into(), 0.3),
             ("derive=TryUnwrap".into(), 0.3),
